@@ -1,53 +1,94 @@
 ---------------------------- MODULE MC_TreeHeap ----------------------------
-(* Property C15, the non-destruction clause, on an implementation-shaped model with ALIASING.   *)
-(* Tree.tla treats trees as values; here the dicts are objects on a heap, named after where     *)
-(* they come from:  <<"t", path>> the dict at `path` of the left operand, <<"u", path>> of the  *)
-(* update, <<"r", path>> / <<"n", path>> dicts made by the call.  A dict maps a key to a leaf   *)
-(* or to <<"ref", name>>.  tree_update(t, u) is modelled step by step as the code does it:      *)
-(*    Copy        the root of t is copied (Deep = FALSE: copy.copy - the nested dicts are        *)
-(*                SHARED with t; Deep = TRUE: every branch is copied, the proposed repair)       *)
-(*    InsertItem  one action per item of u: walk down, creating dicts on demand, write the leaf  *)
-(* ResultIsMerge holds either way.  OperandsIntact is the clause "neither t nor u (at any depth) *)
-(* is modified": TLC refutes it for Deep = FALSE (the run is registered as must-fail and is the  *)
-(* design-level counterpart of the violation the replay finds in the code) and proves it for     *)
-(* Deep = TRUE within the constants.                                                             *)
-EXTENDS Tree, TLC
-CONSTANTS Deep,     \* FALSE: copy.copy of the root (the code today); TRUE: every branch copied (the repair)
-          Size      \* "tiny" | "std" | "wide": universe of operands
+(* Property C15, the non-destruction clause and the merge law, on an implementation-shaped      *)
+(* model with ALIASING.  Tree.tla treats trees as values; here dicts are OBJECTS on a heap.     *)
+(*                                                                                              *)
+(* The operands are a DAG of objects (Tree.tla, "Trees as DAGs"): objs[i] is a node, a cell is  *)
+(* a leaf or <<"ref", j>> with j > i.  One object may hang under two keys, at two depths, in t  *)
+(* and in u at once; u may be t itself or a branch of t (and the other way round).  The law     *)
+(* level sees the UNFOLDED trees T and U.  On the heap of the run the operand object i is named *)
+(* <<"o", <<"i">>>>, the dicts made by the call <<"r", path>> (copies) and <<"n", path>> (new). *)
+(* tree_update(t, u) is modelled step by step as the code does it:                              *)
+(*    Copy        Deep = FALSE: copy.copy of the root - the nested dicts are SHARED with t;     *)
+(*                Deep = TRUE: _tree_copy, every branch copied, once per place it hangs in      *)
+(*    InsertItem  one action per item of u: walk down, creating dicts on demand, write the leaf *)
+(* The items come from the walk of u: Walk = "unfold" is tree_items (a shared object is walked  *)
+(* wherever it hangs); Walk = "once" is a walk that remembers the objects it has seen and skips *)
+(* them the second time (a recursion guard that is never popped).                               *)
+(* ResultIsMerge: the result is Merge(T, U, ign).  OperandsIntact: "neither t nor u (at any     *)
+(* depth) is modified" = every operand OBJECT is what it was.  TLC refutes OperandsIntact for   *)
+(* Deep = FALSE and ResultIsMerge for Walk = "once" (both registered as must-fail: the design-  *)
+(* level counterparts of what the replay finds in such code) and proves both for the code as it *)
+(* is (Deep = TRUE, Walk = "unfold") within the constants.                                      *)
+(* The same initial states with NEXT NextGen are the S2C generator for operands with aliasing.  *)
+EXTENDS Tree, TLC, Json
+CONSTANTS Deep,     \* FALSE: copy.copy of the root; TRUE: every branch copied (the code today)
+          Walk,     \* "unfold" (tree_items today) | "once" (visited-set guard)
+          Size      \* "tiny" | "std" | "wide": universe of operand heaps
 
-VARIABLES t, u, ign, heap, todo, pc
-vars == <<t, u, ign, heap, todo, pc>>
+VARIABLES objs, rt, ru, ign, heap, todo, pc
+vars == <<objs, rt, ru, ign, heap, todo, pc>>
 
 KeyOrder == <<"a", "ab">>
-U    == CASE Size = "tiny" -> RootU({"a"}, {None, VInt(1)}, 2)
-          [] Size = "std"  -> RootU({"a", "ab"}, {None, VInt(1)}, 2)
-          [] Size = "wide" -> RootU({"a", "ab"}, {None, VInt(1), VStr("s")}, 2)
-IgnU == IF Size = "wide" THEN {{}, {None}} ELSE {{}}
+Key  == {"a", "ab"}
+\* heaps of 4 objects (wide) carry one kind of leaf, the smaller ones two
+LeafFor(N) == IF Size = "tiny" \/ N = 4 THEN {VInt(1)} ELSE {None, VInt(1)}
+NSet == CASE Size = "tiny" -> {3} [] Size = "std" -> {2, 3} [] Size = "wide" -> {2, 3, 4}
+IgnU == IF Size = "tiny" THEN {{}} ELSE {{}, {None}}
+
+\* every acyclic heap of N non-empty objects: object i refers to later objects only
+Cells(i, N) == LeafFor(N) \cup {RefCell(j) : j \in (i + 1)..N}
+Nodes(i, N) == UNION {[S -> Cells(i, N)] : S \in (SUBSET Key) \ {{}}}
+RECURSIVE HeapsFrom(_, _)
+HeapsFrom(i, N) == IF i > N THEN {<<>>} ELSE {<<n>> \o rest : n \in Nodes(i, N), rest \in HeapsFrom(i + 1, N)}
 
 IsRef(c) == c[1] = "ref"
 Ref(n)   == <<"ref", n>>
 PutK(f, k, v) == [x \in DOMAIN f \cup {k} |-> IF x = k THEN v ELSE f[x]]
+Join(f, g)    == [x \in DOMAIN f \cup DOMAIN g |-> IF x \in DOMAIN g THEN g[x] ELSE f[x]]
 
-PathPrefixes(tr)    == UNION {{SubSeq(p, 1, n) : n \in 0..Len(p)} : p \in TPaths(tr)}
-BranchPaths(tr) == {<<>>} \cup {q \in PathPrefixes(tr) : IsBranch(TGet(tr, q))}
+\* the operand objects on the heap of the run
+OName(i) == <<"o", <<ToString(i)>>>>
+ONode(i) == [k \in DOMAIN objs[i] |-> IF IsRefCell(objs[i][k]) THEN Ref(OName(objs[i][k][2])) ELSE objs[i][k]]
+OperandHeap == [n \in {OName(i) : i \in 1..Len(objs)} |-> ONode(CHOOSE i \in 1..Len(objs) : OName(i) = n)]
+T == Unfold(objs, rt)
+U == Unfold(objs, ru)
+
+\* a tree loaded as fresh objects, one per place (path): what _tree_copy makes
+PathPrefixes(tr) == UNION {{SubSeq(p, 1, n) : n \in 0..Len(p)} : p \in TPaths(tr)}
+BranchPaths(tr)  == {<<>>} \cup {q \in PathPrefixes(tr) : IsBranch(TGet(tr, q))}
 NodeOf(tag, tr, p) == LET sub == TGet(tr, p) IN
     [k \in KeysOf(sub) |-> IF IsBranch(Kids(sub)[k]) THEN Ref(<<tag, p \o <<k>>>>) ELSE Kids(sub)[k]]
-Names(tag, tr) == {<<tag, p>> : p \in BranchPaths(tr)}
-Load(tag, tr)  == [n \in Names(tag, tr) |-> NodeOf(tag, tr, n[2])]
-Join(f, g)     == [x \in DOMAIN f \cup DOMAIN g |-> IF x \in DOMAIN g THEN g[x] ELSE f[x]]
+Load(tag, tr) == [n \in {<<tag, p>> : p \in BranchPaths(tr)} |-> NodeOf(tag, tr, n[2])]
 
 RECURSIVE Deref(_, _)
 Deref(h, n) == Branch([k \in DOMAIN h[n] |-> IF IsRef(h[n][k]) THEN Deref(h, h[n][k][2]) ELSE h[n][k]])
 
-R == <<"r", <<>>>>
-Init == /\ t \in U /\ u \in U /\ ign \in IgnU
-        /\ heap = Join(Load("t", t), Load("u", u))
-        /\ todo = ItemsSeq(u, KeyOrder) /\ pc = "copy"
+\* the walk that skips an object it has already seen anywhere: <<items, seen>>
+RECURSIVE WalkOnce(_, _, _)
+WalkOnce(i, seen, ord) ==
+    IF i \in seen THEN <<<<>>, seen>>
+    ELSE FoldLeft(LAMBDA acc, k :
+                    IF k \notin DOMAIN objs[i] THEN acc
+                    ELSE IF IsRefCell(objs[i][k])
+                         THEN LET r == WalkOnce(objs[i][k][2], acc[2], ord) IN
+                              <<acc[1] \o [n \in 1..Len(r[1]) |-> <<<<k>> \o r[1][n][1], r[1][n][2]>>], r[2]>>
+                         ELSE <<Append(acc[1], <<<<k>>, objs[i][k]>>), acc[2]>>,
+                  <<<<>>, seen \cup {i}>>, ord)
 
-\* tree = copy(tree)            (today)      |   tree = _tree_copy(tree, types)   (repair)
+R == <<"r", <<>>>>
+InitArgs == /\ \E N \in NSet : objs \in HeapsFrom(1, N)
+            /\ rt \in 1..Len(objs) /\ ru \in 1..Len(objs) /\ (rt = 1 \/ ru = 1)
+            /\ HeapOk(objs, {rt, ru}) /\ AllReachable(objs, {rt, ru})
+            /\ ign \in IgnU
+Init == /\ InitArgs
+        /\ heap = OperandHeap
+        /\ todo = (IF Walk = "once" THEN WalkOnce(ru, {}, KeyOrder)[1] ELSE ItemsSeq(U, KeyOrder))
+        /\ pc = "copy"
+
+\* tree = copy(tree)            (Deep = FALSE)   |   tree = _tree_copy(tree, types)   (Deep = TRUE)
 Copy == /\ pc = "copy" /\ pc' = "insert"
-        /\ heap' = IF Deep THEN Join(heap, Load("r", t)) ELSE PutK(heap, R, heap[<<"t", <<>>>>])
-        /\ UNCHANGED <<t, u, ign, todo>>
+        /\ heap' = IF Deep THEN Join(heap, Load("r", T)) ELSE PutK(heap, R, heap[OName(rt)])
+        /\ UNCHANGED <<objs, rt, ru, ign, todo>>
 
 \* _tree_setitem(tree, item, base, ignore, types)
 RECURSIVE HeapInsert(_, _, _, _, _)
@@ -62,10 +103,29 @@ HeapInsert(h, obj, path, leaf, pre) ==
 InsertItem == /\ pc = "insert" /\ todo # <<>>
               /\ heap' = HeapInsert(heap, R, Head(todo)[1], Head(todo)[2], <<>>)
               /\ todo' = Tail(todo)
-              /\ UNCHANGED <<t, u, ign, pc>>
-Return == pc = "insert" /\ todo = <<>> /\ pc' = "done" /\ UNCHANGED <<t, u, ign, heap, todo>>
+              /\ UNCHANGED <<objs, rt, ru, ign, pc>>
+Return == pc = "insert" /\ todo = <<>> /\ pc' = "done" /\ UNCHANGED <<objs, rt, ru, ign, heap, todo>>
 Next == Copy \/ InsertItem \/ Return
 
-ResultIsMerge  == pc = "done" => Deref(heap, R) = Merge(t, u, ign)
-OperandsIntact == Deref(heap, <<"t", <<>>>>) = t /\ Deref(heap, <<"u", <<>>>>) = u
+ResultIsMerge  == pc = "done" => Deref(heap, R) = Merge(T, U, ign)
+\* every operand object is what it was, references included (so the unfolded t and u are what they were)
+OperandsIntact == \A i \in 1..Len(objs) : heap[OName(i)] = ONode(i)
+\* the same, looked at when the call returns (the must-fail runs use this form, so that every action has been
+\* taken by the time TLC stops at the refutation)
+OperandsIntactAtReturn == pc = "done" => OperandsIntact
+\* the walk of a DAG is the walk of its unfolding, and the single-tree laws hold for unfoldings
+UnfoldedLaws   == pc = "copy" => /\ WellFormed(T) /\ WellFormed(U)
+                                 /\ FromItems(TItems(U)) = U
+                                 /\ Merge(U, U, ign) = U
+                                 /\ (Walk = "unfold" /\ ~Shared(objs, {ru})) => WalkOnce(ru, {}, KeyOrder)[1] = todo
+
+\* --- S2C generator: every operand heap with the outcome the law expects ------------------------
+Gen == /\ pc = "copy" /\ pc' = "done"
+       /\ PrintT(ToJson([op |-> "hupdate", objs |-> objs, rt |-> rt, ru |-> ru, ign |-> ign,
+                         out |-> Merge(T, U, ign), shared |-> Shared(objs, {rt, ru})]))
+       /\ IF rt = ru /\ ign = {}
+          THEN PrintT(ToJson([op |-> "hitems", objs |-> objs, rt |-> rt, t |-> T, items |-> TItems(T), shared |-> Shared(objs, {rt})]))
+          ELSE TRUE
+       /\ UNCHANGED <<objs, rt, ru, ign, heap, todo>>
+NextGen == Gen
 =============================================================================
